@@ -82,6 +82,7 @@ type scriptConn struct {
 	mu     sync.Mutex
 	cond   *sync.Cond
 	hs     []byte // handshake bytes, served first
+	hsCut  int    // > 0: the first Read returns only that many handshake bytes (TCP split the handshake)
 	data   []byte // the frame stream
 	avail  int    // bytes of data "written by the sender" so far
 	pos    int
@@ -101,6 +102,10 @@ func (c *scriptConn) Read(p []byte) (int, error) {
 	c.mu.Lock()
 	defer c.mu.Unlock()
 	if len(c.hs) > 0 {
+		if c.hsCut > 0 && c.hsCut < len(c.hs) && len(p) > c.hsCut {
+			p = p[:c.hsCut]
+		}
+		c.hsCut = 0
 		n := copy(p, c.hs)
 		c.hs = c.hs[n:]
 		return n, nil
@@ -245,6 +250,10 @@ func runFramingReplay(b *framingBehaviour, seed int64) ([]map[string]any, error)
 		return nil, err
 	}
 	conn := newScriptConn(hs)
+	if seed%3 == 0 {
+		// TCP may split the handshake as well: the first Read returns only part of it
+		conn.hsCut = []int{1, 2, 3, 4, 5, len(hs) - 1}[rng.Intn(6)]
+	}
 	connActor, err := remoting.VerifNewAcceptedConnection(conn, "10.1.1.1:7000", nil, sys)
 	if err != nil {
 		// the handshake bytes are valid: a refusal is the receiving side's answer, judged by the monitor
@@ -454,6 +463,18 @@ func checkC11(c *core.Ctx) {
 		return
 	}
 	v := framingVariant
+	if !os_skipMC() {
+		// the connection prologue: the handshake may arrive in any segmentation
+		r, err := tlc.Exec(tlc.Run{Dir: dir, Module: "Handshake", Config: "MC_Handshake_fix.cfg", Timeout: 2 * time.Minute})
+		if err != nil || r.Violation != "" {
+			c.Broken("model checking Handshake (fix) failed on the model of record: %v %s\n%s", err, vio(r), tailOf(r))
+			return
+		}
+		c.MC("MC_Handshake_fix", r)
+		if r2, err := tlc.Exec(tlc.Run{Dir: dir, Module: "Handshake", Config: "MC_Handshake_orig.cfg", Timeout: 2 * time.Minute}); err == nil {
+			c.Set("handshake_single_read_model_violates", r2.ViolatedName)
+		}
+	}
 	// the minimal body length of a frame carrying an rmsg between the scenario's references
 	sender, _ := actor.NewRef("10.1.1.1:7000", "/sender")
 	recv, _ := actor.NewRef("localhost", "/recv")
